@@ -192,8 +192,9 @@ def extra(stats, tier, seed):
             kind = i % 3
             if kind == 0:
                 mx = rng.randint(0, 5); att = rng.randint(1, 6); exc = rng.choice([-1, 0, 1, 2, 3])
-                bases = sorted(rng.sample(range(len(rc.BASES)), rng.randint(1, 3)))
-                pol = R.ExceptionRetryPolicy(max_attempts=mx, exception_base=[rc.BASES[b] for b in bases])
+                bases = sorted(rng.sample(range(len(rc.BASES)), rng.randint(0, 3)))
+                eb = [rc.BASES[b] for b in bases]
+                pol = R.ExceptionRetryPolicy(max_attempts=mx, exception_base=tuple(eb) if i % 2 else eb)
                 f = Future()
                 with det.atomic():
                     if exc < 0:
